@@ -360,6 +360,20 @@ func verify(args []string) int {
 			missingUnp[funcKind(n)]++
 		}
 	}
+	// functions (or codec pairs) the baseline knows nothing about: obligations generated from NEW code by a sweep or a
+	// codec-pairs directive. An undecided answer for those is "undecided", not a violation of something that held before.
+	fnInBase := map[string]bool{}
+	fnOf := func(n string) string {
+		if i := strings.Index(n, "/"); i >= 0 {
+			return n[:i]
+		}
+		return n
+	}
+	for _, l := range [][]string{base.Discharged, base.Unproved, base.ThoroughOnly} {
+		for _, n := range l {
+			fnInBase[fnOf(n)] = true
+		}
+	}
 	for _, o := range failed {
 		n := o.Obl.Name
 		switch {
@@ -369,6 +383,9 @@ func verify(args []string) int {
 			viols = append(viols, viol{o: o})
 		case inUnp[n]:
 			tolerated = append(tolerated, n)
+		case len(base.Discharged) > 0 && !fnInBase[fnOf(n)] && o.Status != "refuted" &&
+			(!o.Obl.Structural || strings.Contains(o.Obl.Desc, "outside the fragment")):
+			tolerated = append(tolerated, n+" (new code, undecided)")
 		default:
 			fk := funcKind(n)
 			if missingUnp[fk] > 0 {
